@@ -1189,7 +1189,7 @@ class Interp {
       size_t i = ((unsigned)op.c + k * (1 + (unsigned)op.d % 3)) % v.size();
       touch(kind, i);
       sp.push_back(v[i]);
-      cf.push_back(mk((int)k * 2 - 3, 2));
+      cf.push_back((((unsigned)op.d >> 3) & 1) && k == cnt - 1 ? mk(0) : mk((int)k * 2 - 3, 2));  // the last coefficient may vanish: the grid check must not depend on it
       if (!same_points(sp[0].getSupport().getGrid(), sp[k].getSupport().getGrid())) differ = true;
     }
     if (op.code == P_LINCOMB_BAD) {
